@@ -4,14 +4,15 @@ go 1.24.0
 
 require (
 	github.com/AliyunContainerService/terway v0.0.0
+	github.com/aliyun/alibaba-cloud-sdk-go v1.63.88
 	github.com/anishathalye/porcupine v1.3.0
 	github.com/vishvananda/netlink v1.2.1-beta.2
+	k8s.io/apimachinery v0.32.2
 )
 
 require (
 	github.com/AliyunContainerService/ack-ram-tool/pkg/credentials/provider v0.16.1 // indirect
 	github.com/alexflint/go-filemutex v1.2.0 // indirect
-	github.com/aliyun/alibaba-cloud-sdk-go v1.63.88 // indirect
 	github.com/beorn7/perks v1.0.1 // indirect
 	github.com/boltdb/bolt v1.3.1 // indirect
 	github.com/cespare/xxhash/v2 v2.3.0 // indirect
@@ -85,7 +86,6 @@ require (
 	gopkg.in/yaml.v3 v3.0.1 // indirect
 	k8s.io/api v0.32.2 // indirect
 	k8s.io/apiextensions-apiserver v0.32.2 // indirect
-	k8s.io/apimachinery v0.32.2 // indirect
 	k8s.io/client-go v0.32.2 // indirect
 	k8s.io/klog/v2 v2.130.1 // indirect
 	k8s.io/kube-openapi v0.0.0-20241105132330-32ad38e42d3f // indirect
